@@ -175,15 +175,17 @@ example : BuildWF exBuild [NL] := exBuild_wf
 /-! ### File level -/
 
 /-- **The manifest file is read into exactly the declared statements, in order** (byte level, whole
-    file, no `include`/`subninja`).  If the text of the main manifest is a sequence of written
+    file).  If the text of the main manifest is a sequence of written
     statements - top-level bindings, `rule` and `pool` blocks, `build` statements with all their
-    sections, `default` - each preceded by any number of blank lines and `#` comments, followed by
+    sections, `default`, `include` / `subninja` lines - each preceded by any number of blank lines and `#` comments, followed by
     trailing blank lines / comments (`Load.FileWF`: every statement meets the well-formedness its
     byte-level theorem asks for, in front of the text that follows it), then `load::read` returns
     exactly the fold of the statements' effects over the loader (`Load.applyItems`): rules and
     pools registered under their names, bindings evaluated top-down in the scope as of that line,
     every `build` statement added by `Graph::add_build` with its paths in the declared roles and
-    order, `default` targets resolved - starting from the loader that knows only the manifest's own
+    order, `default` targets resolved, an `include` / `subninja` line handing the named file's content (read through
+    `fs`) to the parser for nested files (`Load.parseFile`, to which `nested_file_read_as_written` applies again) -
+    starting from the loader that knows only the manifest's own
     name.  (`lns`: the line numbers the `build` statements record; errors of `add_build` / of path
     evaluation propagate as in the loop.) -/
 theorem manifest_read_as_written (inclExtends : Bool) (fs : Load.Fs) (main c content : Bytes)
@@ -193,8 +195,22 @@ theorem manifest_read_as_written (inclExtends : Bool) (fs : Load.Fs) (main c con
     (htext : content ++ [NUL] = Load.fileBytes segs (Load.noiseBytes tailNoise [NUL])) :
     ∃ lns : List Nat, lns.length = segs.length ∧
       Load.loadWith inclExtends fs main =
-        (Load.applyItems c (List.zipWith (fun (sg : Load.FSeg) ln => sg.2.item ln) segs lns)
+        (Load.applyItems inclExtends fs 0 (Load.parseFile inclExtends fs (Load.MAX_INCLUDE_DEPTH + 1)) c
+          (List.zipWith (fun (sg : Load.FSeg) ln => sg.2.item ln) segs lns)
           { graph := { files := [⟨c, none, []⟩] } } []).map (·.1) :=
   Load.load_as_written inclExtends fs main c content hne hc hfs segs tailNoise htn hwf htext
+
+/-- The same for a nested file (what an `include` / `subninja` line hands over), at any depth and
+    from any loader state and scope: so the file-level theorem applies to every file of a manifest
+    tree in turn. -/
+theorem nested_file_read_as_written (inclExtends : Bool) (fs : Load.Fs) (d : Nat) (l : Loader) (file content : Bytes)
+    (vars : StrMap) (depth : Nat) (segs : List Load.FSeg) (tailNoise : List Load.Noise) (htn : ∀ n ∈ tailNoise, n.WF)
+    (hwf : Load.FileWF segs (Load.noiseBytes tailNoise [NUL]))
+    (htext : content ++ [NUL] = Load.fileBytes segs (Load.noiseBytes tailNoise [NUL])) :
+    ∃ lns : List Nat, lns.length = segs.length ∧
+      Load.parseFile inclExtends fs (d + 1) l file content vars depth =
+        Load.applyItems inclExtends fs depth (Load.parseFile inclExtends fs d) file
+          (List.zipWith (fun (sg : Load.FSeg) ln => sg.2.item ln) segs lns) l vars :=
+  Load.parseFile_as_written inclExtends fs d l file content vars depth segs tailNoise htn hwf htext
 
 end N2V.C10
